@@ -153,4 +153,289 @@ theorem codecPart_codec (c : Cfg) (k : Kind) (remote : List Media) (hasLocal : B
     subst ha; right; right; right; right; left; rfl
   | image => exact t38Attrs_codec
 
+/-- two lists related position by position -/
+inductive Aligned {α β : Type} (R : α → β → Prop) : List α → List β → Prop
+  | nil : Aligned R [] []
+  | cons {a : α} {b : β} {as : List α} {bs : List β} : R a b → Aligned R as bs → Aligned R (a :: as) (b :: bs)
+
+/-- accumulator-free form of `buildSections` -/
+def buildList (c : Cfg) (ts : List TrxView) (remote : List Media) (hasLocal : Bool) (role : Option Bool) :
+    List (Nat × Bool) → Nat → List Media
+  | [], _ => []
+  | (i, mux) :: rest, nextMid =>
+    match ts[i]? with
+    | none => buildList c ts remote hasLocal role rest nextMid
+    | some t =>
+      match t.mid with
+      | some m => answerSection c t remote hasLocal role m mux :: buildList c ts remote hasLocal role rest nextMid
+      | none => answerSection c t remote hasLocal role (natStr nextMid) mux ::
+          buildList c ts remote hasLocal role rest ((nextMid + 1) % 65536)
+
+theorem buildSections_eq (c : Cfg) (ts : List TrxView) (remote : List Media) (hasLocal : Bool) (role : Option Bool)
+    (order : List (Nat × Bool)) (nm : Nat) (acc : List Media) :
+    buildSections c ts remote hasLocal role order nm acc = acc.reverse ++ buildList c ts remote hasLocal role order nm := by
+  induction order generalizing nm acc with
+  | nil => simp [buildSections, buildList]
+  | cons p rest ih =>
+    obtain ⟨i, mux⟩ := p
+    unfold buildSections buildList
+    cases hget : ts[i]? with
+    | none => simp only; exact ih nm acc
+    | some t =>
+      cases hm : t.mid with
+      | some m => simp only [hm]; rw [ih]; simp
+      | none => simp only [hm]; rw [ih]; simp
+
+/-- pointwise property of the built sections along the offer's sections -/
+theorem zipAll_buildList (c : Cfg) (ts : List TrxView) (remote : List Media) (hasLocal : Bool) (role : Option Bool)
+    (P : Media → Media → Bool) (secs : List Media) (order : List (Nat × Bool)) (nm : Nat)
+    (hv : ∀ p ∈ order, p.1 < ts.length)
+    (h : Aligned (fun o p => ∀ t mid, ts[p.1]? = some t → (∀ m, t.mid = some m → mid = m) →
+            P o (answerSection c t remote hasLocal role mid p.2) = true) secs order) :
+    zipAll P secs (buildList c ts remote hasLocal role order nm) = true := by
+  induction h generalizing nm with
+  | nil => simp [buildList, zipAll]
+  | @cons o p secs' order' hop _ ih =>
+    obtain ⟨i, mux⟩ := p
+    have hi : i < ts.length := hv (i, mux) (by simp)
+    have hget : ts[i]? = some ts[i] := List.getElem?_eq_getElem hi
+    have hv' : ∀ p ∈ order', p.1 < ts.length := fun p hp => hv p (by simp [hp])
+    unfold buildList
+    rw [hget]
+    cases hm : (ts[i]).mid with
+    | some m =>
+      have := hop _ m hget (fun m' hm' => by rw [hm] at hm'; injection hm')
+      simp only [hm, zipAll, this, ih _ hv', Bool.and_self]
+    | none =>
+      have := hop _ (natStr nm) hget (fun m' hm' => by rw [hm] at hm'; cases hm')
+      simp only [hm, zipAll, this, ih _ hv', Bool.and_self]
+
+def secHasMux (s : Media) : Bool := s.attrs.any (fun a => a.key = "rtcp-mux".toList)
+
+/-- the rtcp-mux flag carried by the i-th entry of the matching is the i-th offered section's -/
+theorem answerOrder_flags (ts : List TrxView) (secs : List Media) (used : List Nat) (acc out : List (Nat × Bool))
+    (h : answerOrder ts secs used acc = some out) :
+    ∃ tail, out = acc.reverse ++ tail ∧ Aligned (fun o p => p.2 = secHasMux o) secs tail := by
+  induction secs generalizing used acc with
+  | nil => simp [answerOrder] at h; subst h; exact ⟨[], by simp, .nil⟩
+  | cons s rest ih =>
+    unfold answerOrder at h
+    dsimp only at h
+    split at h
+    · rename_i i hi
+      obtain ⟨tail, ht, hf⟩ := ih _ _ h
+      refine ⟨(i, secHasMux s) :: tail, ?_, .cons rfl hf⟩
+      rw [ht]; simp [secHasMux]
+    · cases h
+
+theorem Aligned.imp {α β : Type} {R S : α → β → Prop} {as : List α} {bs : List β}
+    (h : Aligned R as bs) (hrs : ∀ a b, a ∈ as → b ∈ bs → R a b → S a b) : Aligned S as bs := by
+  induction h with
+  | nil => exact .nil
+  | cons hab _ ih =>
+    exact .cons (hrs _ _ (by simp) (by simp) hab)
+      (ih (fun a b ha hb => hrs a b (List.mem_cons_of_mem _ ha) (List.mem_cons_of_mem _ hb)))
+
+theorem Aligned.and {α β : Type} {R S : α → β → Prop} {as : List α} {bs : List β}
+    (h1 : Aligned R as bs) (h2 : Aligned S as bs) : Aligned (fun a b => R a b ∧ S a b) as bs := by
+  induction h1 with
+  | nil => exact .nil
+  | cons hab _ ih => cases h2 with | cons hs ht => exact .cons ⟨hab, hs⟩ (ih ht)
+
+theorem findIdxFrom_spec (p : Nat → TrxView → Bool) (ts : List TrxView) (i j : Nat)
+    (h : findIdxFrom p ts i = some j) : ∃ t, ts[j - i]? = some t ∧ p j t = true ∧ i ≤ j := by
+  induction ts generalizing i with
+  | nil => simp [findIdxFrom] at h
+  | cons t rest ih =>
+    unfold findIdxFrom at h
+    split at h
+    · rename_i hp
+      simp only [Option.some.injEq] at h; subst h
+      exact ⟨t, by simp, hp, Nat.le_refl _⟩
+    · obtain ⟨t', ht', hp', hle⟩ := ih _ h
+      refine ⟨t', ?_, hp', by omega⟩
+      have : j - i = (j - (i + 1)) + 1 := by omega
+      rw [this]; simpa using ht'
+
+/-- how an offered section and the transceiver chosen for it are related -/
+def Matches (o : Media) (t : TrxView) : Prop :=
+  (o.mid ≠ [] ∧ t.mid = some o.mid) ∨ (o.mid = [] ∧ t.kind = o.kind)
+
+theorem answerOrder_matches (ts : List TrxView) (secs : List Media) (used : List Nat) (acc out : List (Nat × Bool))
+    (h : answerOrder ts secs used acc = some out) :
+    ∃ tail, out = acc.reverse ++ tail ∧
+      Aligned (fun o p => p.2 = secHasMux o ∧ ∃ t, ts[p.1]? = some t ∧ Matches o t) secs tail := by
+  induction secs generalizing used acc with
+  | nil => simp [answerOrder] at h; subst h; exact ⟨[], by simp, .nil⟩
+  | cons s rest ih =>
+    unfold answerOrder at h
+    dsimp only at h
+    split at h
+    · rename_i i hi
+      obtain ⟨tail, ht, hf⟩ := ih _ _ h
+      refine ⟨(i, secHasMux s) :: tail, ?_, .cons ⟨rfl, ?_⟩ hf⟩
+      · rw [ht]; simp [secHasMux]
+      · split at hi
+        · rename_i hmid
+          obtain ⟨t, hget, hp, _⟩ := findIdxFrom_spec _ _ _ _ hi
+          refine ⟨t, by simpa using hget, Or.inl ⟨?_, ?_⟩⟩
+          · intro e; simp [e] at hmid
+          · simp only [Bool.and_eq_true, decide_eq_true_eq] at hp; exact hp.2
+        · rename_i hmid
+          obtain ⟨t, hget, hp, _⟩ := findIdxFrom_spec _ _ _ _ hi
+          refine ⟨t, by simpa using hget, Or.inr ⟨?_, ?_⟩⟩
+          · simpa using hmid
+          · simp only [Bool.and_eq_true, decide_eq_true_eq] at hp; exact hp.2
+    · cases h
+
+theorem zipAll_map_right (P : Media → Media → Bool) (f : Media → Media) (hf : ∀ o s, P o (f s) = P o s)
+    (secs l : List Media) : zipAll P secs (l.map f) = zipAll P secs l := by
+  induction secs generalizing l with
+  | nil => cases l <;> simp [zipAll]
+  | cons o os ih => cases l with
+    | nil => simp [zipAll]
+    | cons s ss => simp [zipAll, hf, ih]
+
+theorem buildList_mem (c : Cfg) (ts : List TrxView) (remote : List Media) (hasLocal : Bool) (role : Option Bool)
+    (order : List (Nat × Bool)) (nm : Nat) :
+    ∀ s ∈ buildList c ts remote hasLocal role order nm, ∃ t mid mux, s = answerSection c t remote hasLocal role mid mux := by
+  induction order generalizing nm with
+  | nil => intro s hs; simp [buildList] at hs
+  | cons p rest ih =>
+    obtain ⟨i, mux⟩ := p
+    intro s hs
+    unfold buildList at hs
+    cases hget : ts[i]? with
+    | none => rw [hget] at hs; exact ih _ s hs
+    | some t =>
+      rw [hget] at hs
+      cases hm : t.mid with
+      | some m =>
+        simp only [hm, List.mem_cons] at hs
+        rcases hs with h | h
+        · exact ⟨t, m, mux, h⟩
+        · exact ih _ s h
+      | none =>
+        simp only [hm, List.mem_cons] at hs
+        rcases hs with h | h
+        · exact ⟨t, _, mux, h⟩
+        · exact ih _ s h
+
+theorem buildList_length_le (c : Cfg) (ts : List TrxView) (remote : List Media) (hasLocal : Bool) (role : Option Bool)
+    (order : List (Nat × Bool)) (nm : Nat) :
+    (buildList c ts remote hasLocal role order nm).length ≤ order.length := by
+  induction order generalizing nm with
+  | nil => simp [buildList]
+  | cons p rest ih =>
+    obtain ⟨i, mux⟩ := p
+    unfold buildList
+    cases hget : ts[i]? with
+    | none => simp only; have := ih nm; simp; omega
+    | some t =>
+      cases hm : t.mid with
+      | some m => simp only [hm, List.length_cons]; have := ih nm; omega
+      | none => simp only [hm, List.length_cons]; have := ih ((nm + 1) % 65536); omega
+
+theorem answerOrder_length (ts : List TrxView) (secs : List Media) (used : List Nat) (acc out : List (Nat × Bool))
+    (h : answerOrder ts secs used acc = some out) : out.length = acc.length + secs.length := by
+  induction secs generalizing used acc with
+  | nil => simp [answerOrder] at h; subst h; simp
+  | cons s rest ih =>
+    unfold answerOrder at h
+    dsimp only at h
+    split at h
+    · have := ih _ _ h
+      simp at this ⊢; omega
+    · cases h
+
+/-- the sections of an answer, before the mids are (possibly) cleared -/
+theorem answer_sections (c : Cfg) (ts : List TrxView) (nextMid : Nat) (hasLocal : Bool) (role : Option Bool)
+    (offer : Desc) (a : Answer) (h : answer c ts nextMid hasLocal role (some offer) = .ok a) :
+    ∃ order, answerOrder ts offer.media [] [] = some order ∧
+      (a.sections = buildList c ts offer.media hasLocal role order nextMid ∨
+       a.sections = (buildList c ts offer.media hasLocal role order nextMid).map (fun s => { s with mid := [] })) ∧
+      ((c.legacySip = false ∧ (offeredBundle offer.session.attrs = true ∨ offer.media.length ≤ 1)) →
+        a.sections = buildList c ts offer.media hasLocal role order nextMid) := by
+  unfold answer at h
+  by_cases hts : ts.isEmpty = true
+  · simp [hts] at h
+  · simp only [hts, Bool.false_eq_true, if_false] at h
+    cases ho : answerOrder ts offer.media [] [] with
+    | none => simp [ho] at h
+    | some order =>
+      simp only [ho] at h
+      injection h with h
+      subst h
+      refine ⟨order, rfl, ?_, ?_⟩
+      · dsimp only
+        simp only [buildSections_eq, List.reverse_nil, List.nil_append]
+        split
+        · right; rfl
+        · split
+          · right; rfl
+          · left; rfl
+      · intro ⟨hl, hb⟩
+        dsimp only
+        simp only [buildSections_eq, List.reverse_nil, List.nil_append, hl, Bool.false_eq_true, if_false]
+        split
+        · rename_i hc
+          simp only [Bool.not_false, Bool.true_and, Bool.and_eq_true, Bool.not_eq_true', decide_eq_true_eq] at hc
+          rcases hb with hb | hb
+          · rw [hb] at hc; exact absurd hc.1 (by simp)
+          · exfalso
+            have h1 := buildList_length_le c ts offer.media hasLocal role order nextMid
+            have h2 := answerOrder_length ts offer.media [] [] order ho
+            simp only [List.length_nil, Nat.zero_add] at h2
+            omega
+        · rfl
+
+
+theorem findIdxFrom_lt (p : Nat → TrxView → Bool) (ts : List TrxView) (i j : Nat)
+    (h : findIdxFrom p ts i = some j) : i ≤ j ∧ j < i + ts.length := by
+  induction ts generalizing i with
+  | nil => simp [findIdxFrom] at h
+  | cons t rest ih =>
+    unfold findIdxFrom at h
+    split at h
+    · simp at h; subst h; simp
+    · have := ih _ h
+      simp; omega
+
+theorem answerOrder_valid (ts : List TrxView) (secs : List Media) (used : List Nat) (acc out : List (Nat × Bool))
+    (hacc : ∀ p ∈ acc, p.1 < ts.length)
+    (h : answerOrder ts secs used acc = some out) : ∀ p ∈ out, p.1 < ts.length := by
+  induction secs generalizing used acc with
+  | nil => simp [answerOrder] at h; subst h; intro p hp; exact hacc p (List.mem_reverse.mp hp)
+  | cons s rest ih =>
+    unfold answerOrder at h
+    dsimp only at h
+    split at h
+    · rename_i i hi
+      refine ih _ _ ?_ h
+      intro p hp
+      rcases List.mem_cons.mp hp with hp | hp
+      · subst hp
+        dsimp only
+        split at hi
+        · have := findIdxFrom_lt _ _ _ _ hi; omega
+        · have := findIdxFrom_lt _ _ _ _ hi; omega
+      · exact hacc p hp
+    · cases h
+
+theorem buildList_length (c : Cfg) (ts : List TrxView) (remote : List Media) (hasLocal : Bool)
+    (role : Option Bool) (order : List (Nat × Bool)) (nm : Nat) (hv : ∀ p ∈ order, p.1 < ts.length) :
+    (buildList c ts remote hasLocal role order nm).length = order.length := by
+  induction order generalizing nm with
+  | nil => simp [buildList]
+  | cons p rest ih =>
+    obtain ⟨i, mux⟩ := p
+    have hi : i < ts.length := hv (i, mux) (by simp)
+    have hget : ts[i]? = some ts[i] := List.getElem?_eq_getElem hi
+    have hv' : ∀ p ∈ rest, p.1 < ts.length := fun p hp => hv p (by simp [hp])
+    unfold buildList
+    rw [hget]
+    cases hm : (ts[i]).mid with
+    | some m => simp only [hm, List.length_cons, ih _ hv']
+    | none => simp only [hm, List.length_cons, ih _ hv']
+
 end RtcModel.Answer
